@@ -8,6 +8,12 @@ ASSUMPTIONS = ["one fresh interpreter per (termination mode, argument, position,
                "cwd: exit status, stderr classification, artefact presence and (snarkjs) decoded artefact = trace prefix",
                "CPython's shutdown rules (which exits reach sys.exit / sys.excepthook, atexit ordering, status of each SystemExit "
                "argument) are modelled in Model/AtExit.lean and validated only by this correspondence",
+               "application environment: a third of the scripts first install what an application or an IDE would: their own "
+               "sys.excepthook before pysnark is imported (chaining to the previous hook / replacing it / a bound method of an object), "
+               "their own sys.exit wrapper before the import, both, or a chaining excepthook installed AFTER the import; every such "
+               "environment meets an uncaught exception, KeyboardInterrupt, sys.exit(1), sys.exit() and a normal end at least once. The "
+               "model has no notion of foreign hooks: the observed (status, artefact, messages) must equal the model's for the same "
+               "script without them, i.e. the interposition must work whatever hook was there before",
                "file-writing backends: snarkjs, zkinterface (flatbuffers stand-in), qaptools (failing stub binaries: the artefact "
                "observed is pysnark_schedule, written by prove() before the first external tool)"]
 PARTIAL = ["C18_emit_iff_partial: termination events in the well-behaved set (fall off the end, sys.exit(...), uncaught exception, "
@@ -33,9 +39,23 @@ def term_src(term):
     raise ValueError(term)
 
 
-def script_src(autoprove, n, k, caught, term):
-    L = ["import sys, os", "import pysnark.runtime as R", "from pysnark.runtime import PrivVal",
-         f"R.autoprove = {bool(autoprove)}"]
+ENVS = ["hook-chain", "hook-replace", "hook-method", "exit-wrap", "hook-chain+exit-wrap", "hook-after-import"]
+ENV_SRC = {
+    "hook-chain": ["_prev_hook = sys.excepthook", "def _app_hook(tp, ex, tb):", "    sys.stderr.write('app: uncaught %s\\n' % tp.__name__)",
+                   "    _prev_hook(tp, ex, tb)", "sys.excepthook = _app_hook"],
+    "hook-replace": ["def _app_hook(tp, ex, tb):", "    sys.stderr.write('app: fatal %s: %s\\n' % (tp.__name__, ex))", "sys.excepthook = _app_hook"],
+    "hook-method": ["class _Reporter:", "    def __init__(self): self.prev = sys.excepthook", "    def report(self, tp, ex, tb):",
+                    "        sys.stderr.write('reporter: %s\\n' % tp.__name__); self.prev(tp, ex, tb)", "sys.excepthook = _Reporter().report"],
+    "exit-wrap": ["_prev_exit = sys.exit", "def _app_exit(*a):", "    sys.stderr.write('app: leaving\\n'); _prev_exit(*a)", "sys.exit = _app_exit"],
+}
+ENV_SRC["hook-chain+exit-wrap"] = ENV_SRC["hook-chain"] + ENV_SRC["exit-wrap"]
+
+
+def script_src(autoprove, n, k, caught, term, env=""):
+    """env: what the application installed around the import of pysnark (see ENVS)"""
+    L = ["import sys, os"] + (ENV_SRC[env] if env in ENV_SRC else []) + \
+        ["import pysnark.runtime as R", "from pysnark.runtime import PrivVal"] + \
+        (ENV_SRC["hook-chain"] if env == "hook-after-import" else []) + [f"R.autoprove = {bool(autoprove)}"]
     for c in caught:
         L += ["try:", f"    sys.exit({ARGS[c]})", "except SystemExit:", "    pass"]
     for i in range(n):
@@ -75,12 +95,16 @@ def gen(rnd, nq):
     out = []
     for t in terms:                                   # every termination mode at least once
         n = rnd.randrange(1, 4); k = n if t == "fall" else rnd.randrange(0, n + 1)
-        out.append((1, n, k, [], t))
+        out.append((1, n, k, [], t, ""))
+    for env in ENVS:                                  # every application environment meets every well-behaved termination
+        for t in ("uncaught", "kbd", "sysexit=i:1", "sysexit", "fall"):
+            n = rnd.randrange(1, 4); k = n if t == "fall" else rnd.randrange(0, n + 1)
+            out.append((1, n, k, [], t, env))
     while len(out) < nq:
         t = rnd.choice(terms)
         n = rnd.randrange(0, 5); k = n if t == "fall" else rnd.randrange(0, n + 1)
         caught = [rnd.choice(["i:3", "i:0", "none", "s:1"]) for _ in range(rnd.choice([0, 0, 0, 1, 2]))]
-        out.append((rnd.choice([1, 1, 1, 0]), n, k, caught, t))
+        out.append((rnd.choice([1, 1, 1, 0]), n, k, caught, t, rnd.choice(ENVS) if rnd.random() < 0.35 else ""))
     return out
 
 
@@ -91,20 +115,20 @@ def explore(ctx, extended=False, focus=None):
                "raise SystemExit; builtin exit; uncaught exception; KeyboardInterrupt; os._exit) at least once, then random combinations "
                "with position, autoprove on/off and caught exits, on each file-writing backend; distinct = (autoprove, n, k, caught, "
                "termination, backend)")
-    scripts = gen(ctx.rnd, ctx.n(90, 1200) * (2 if extended else 1))
+    scripts = gen(ctx.rnd, ctx.n(120, 1400) * (2 if extended else 1))
     jobs = []; meta = []
-    for i, (ap, n, k, caught, t) in enumerate(scripts):
+    for i, (ap, n, k, caught, t, env) in enumerate(scripts):
         bes = BACKENDS if (i < 30 or ctx.thorough()) else [ctx.rnd.choice(BACKENDS)]
         for be in bes:
-            jobs.append((be, script_src(ap, n, k, caught, t))); meta.append((ap, n, k, caught, t, be))
+            jobs.append((be, script_src(ap, n, k, caught, t, env))); meta.append((ap, n, k, caught, t, be, env))
     with cf.ThreadPoolExecutor(14) as pool:
         outs = list(pool.map(run_one, jobs))
-    lines = [f"X|x{i}|{ap}|0|{n}|{k}|{','.join(caught)}|{t}" for i, (ap, n, k, caught, t, be) in enumerate(meta)]
+    lines = [f"X|x{i}|{ap}|0|{n}|{k}|{','.join(caught)}|{t}" for i, (ap, n, k, caught, t, be, env) in enumerate(meta)]
     ml = common.lean_driver(lines)
-    for (ap, n, k, caught, t, be), o, m in zip(meta, outs, ml):
+    for (ap, n, k, caught, t, be, env), o, m in zip(meta, outs, ml):
         ex.evaluations += 1
-        ex.distinct.add((ap, n, k, tuple(caught), t, be))
-        ex.count(f"term:{t.split('=')[0]}"); ex.count(f"backend:{be}"); ex.count(f"autoprove:{ap}")
+        ex.distinct.add((ap, n, k, tuple(caught), t, be, env))
+        ex.count(f"term:{t.split('=')[0]}"); ex.count(f"backend:{be}"); ex.count(f"autoprove:{ap}"); ex.count(f"env:{env or 'none'}")
         mf = dict(x.split("=") for x in m.split("|")[1:])
         emitted = ARTEFACT[be] in o["files"]
         status = o["status"] if o["status"] >= 0 else 128 - o["status"]        # death by signal n -> 128+n as a shell reports it
@@ -113,16 +137,18 @@ def explore(ctx, extended=False, focus=None):
         impl = {"status": status, "prove": int(emitted), "hookfail": int(hookfail), "skipped": int(skipped)}
         model = {"status": int(mf["status"]), "prove": int(mf["prove"]), "hookfail": int(mf["hookfail"]), "skipped": int(mf["skipped"])}
         if impl != model:
-            ex.disagreements.append({"script": (ap, n, k, caught, t, be), "impl": impl, "model": model, "stderr": o["stderr"][-300:]})
+            ex.disagreements.append({"script": (ap, n, k, caught, t, be, env), "impl": impl, "model": model, "stderr": o["stderr"][-300:]})
         else:
             ex.traces_validated += 1
-        sig = {"term": t.split("=")[0], "arg": t.split("=")[1] if "=" in t else "", "caught": bool(caught), "autoprove": ap}
-        rep = {"autoprove": ap, "n": n, "k": k, "caught": caught, "term": t, "backend": be, "observed": impl,
-               "script": script_src(ap, n, k, caught, t)}
+        sig = {"term": t.split("=")[0], "arg": t.split("=")[1] if "=" in t else "", "caught": bool(caught), "autoprove": ap,
+               "env": env or "none"}
+        rep = {"autoprove": ap, "n": n, "k": k, "caught": caught, "term": t, "backend": be, "env": env, "observed": impl,
+               "script": script_src(ap, n, k, caught, t, env)}
         if ap:
             if emitted and status != 0:
                 ex.violations.append(Violation(dict(sig, dev="emitted-with-failing-status"),
-                                               f"{t} after {k} operations: exit status {status} but {ARTEFACT[be]} was written ({be})", rep))
+                                               f"{t} after {k} operations{' (application environment: ' + env + ')' if env else ''}: exit status {status} but "
+                                               f"{ARTEFACT[be]} was written ({be})", rep))
             if not emitted and status == 0 and not t.startswith("osexit"):
                 ex.violations.append(Violation(dict(sig, dev="not-emitted-with-status-0"),
                                                f"{t} after {k} operations (caught exits {caught}): exit status 0 but no artefact ({be})", rep))
@@ -139,7 +165,7 @@ def explore(ctx, extended=False, focus=None):
                 ex.violations.append(Violation(dict(sig, dev="hook-fails"),
                                                f"{t}: with autoprove off the exit hook raises AttributeError (backend.process_snark)", rep))
         if len(ex.samples) < 5:
-            ex.samples.append({"script": script_src(ap, n, k, caught, t), "backend": be, "observed": impl})
+            ex.samples.append({"script": script_src(ap, n, k, caught, t, env), "backend": be, "observed": impl})
     return ex
 
 
